@@ -222,8 +222,23 @@ func runC01(tier string, _ []string) int {
 			if raw[ident{"ab", ""}] && raw[ident{"a", "b"}] {
 				feat += " concatCollision"
 			}
+			// every fifth set: one batch that holds, for one type, key "", key "0" (the same identity) and a key
+			// that sorts between the two (first character below '0')
+			var crafted data.Points
+			if i%5 == 2 {
+				t := "srt" + r.Ident(2)
+				mid := []string{" ", "!", "#x", "+1", "-1", ".", "/"}[r.Intn(7)]
+				base := int64(1700000000e9) + int64(r.Intn(1000000))
+				crafted = data.Points{{Type: t, Key: "", Time: time.Unix(0, base+int64(r.Intn(1000))), Value: 1, Text: "blank"}, {Type: t, Key: mid, Time: time.Unix(0, base+5000), Value: 2, Text: "mid"}, {Type: t, Key: "0", Time: time.Unix(0, base+2000+int64(r.Intn(1000))), Value: 3, Text: "zero"}}
+				r.Shuffle(3, func(a, b int) { crafted[a], crafted[b] = crafted[b], crafted[a] })
+				feat += " blankZeroAndBetween"
+			}
 			for d := 0; d < k; d++ {
 				batches := genDelivery(r, set)
+				if crafted != nil {
+					pos := r.Intn(len(batches) + 1)
+					batches = append(batches[:pos], append([]data.Points{crafted}, batches[pos:]...)...)
+				}
 				id := fmt.Sprintf("c01-%d-%v-%d-%s", i, edge, d, r.Ident(6))
 				parent := in.RootID
 				wit := map[string]any{"case": i, "seed": c.Seed, "edge": edge, "delivery": d, "node": id}
